@@ -235,8 +235,9 @@ def insertPos (len : Nat) (pos : Int) : Option (Nat × Nat) :=
     plain element types), `none` = default construction; with callbacks the constructor runs -/
 def placeElem (s : State) (h nb p : Nat) (k : XKind) (val : Option (List Byte)) (copySrc : Option Nat) : Out Unit :=
   if k.t.init ∧ k.t.fini.isSome then
-    match initAt s nb p k.t.size copySrc with
-    | .ok s1 _ => .ok s1 ()
+    -- placement new by the caller: never refused
+    match initAt { s with oracle := [] } nb p k.t.size copySrc with
+    | .ok s1 _ => .ok { s1 with oracle := s.oracle } ()
     | .fail s1 e => .fail s1 e
     | .fault w => .fault w
   else poke s h p (val.getD (zeros k.t.size))
